@@ -626,7 +626,7 @@ def probe_pair(w, op):
 
 def mutate_model(m: RefGraph, rng):
     """single-feature mutation; returns (mutated model, description) or None"""
-    kinds = ["element", "add_bond", "remove_bond"]
+    kinds = ["element", "add_bond", "remove_bond", "move_bond", "move_bond", "swap_elements", "swap_elements"]
     descs = list(m.all_descs())
     if descs:
         kinds += ["flip", "swap_ligands", "drop_desc"] * 2
@@ -643,6 +643,32 @@ def mutate_model(m: RefGraph, rng):
             els = [e for e in els if e != g.atoms[a]["atom_type"]]
             g.atoms[a]["atom_type"] = rng.choice(els)
             return g, kind
+        if kind == "swap_elements" and len(g.atoms) >= 2:
+            # same element multiset, same skeleton: two atoms exchange elements
+            ats = g.sorted_atoms()
+            pairs = [(x, y) for i, x in enumerate(ats) for y in ats[i + 1:]
+                     if g.atoms[x]["atom_type"] != g.atoms[y]["atom_type"]]
+            if pairs:
+                x, y = rng.choice(pairs)
+                g.atoms[x]["atom_type"], g.atoms[y]["atom_type"] = g.atoms[y]["atom_type"], g.atoms[x]["atom_type"]
+                return g, kind
+        if kind == "move_bond" and g.bonds and len(g.atoms) >= 3:
+            # same number of bonds: one bond is moved (keeps trees trees, often)
+            used = set()
+            for w_, key, _r, d in g.all_descs():
+                if w_ in ("bstereo", "bchange"):
+                    used.add(key)
+            cand = [b for b in sorted(g.bonds, key=lambda b: tuple(sorted(b))) if b not in used]
+            ats = g.sorted_atoms()
+            free = [(x, y) for i, x in enumerate(ats) for y in ats[i + 1:] if B(x, y) not in g.bonds]
+            if cand and free:
+                old_b = rng.choice(cand)
+                # prefer re-attaching one end of the removed bond
+                near = [(x, y) for x, y in free if x in old_b or y in old_b]
+                x, y = rng.choice(near or free)
+                at = g.bonds.pop(old_b)
+                g.bonds[B(x, y)] = at
+                return g, kind
         if kind == "add_bond" and len(g.atoms) >= 2:
             ats = g.sorted_atoms()
             free = [(x, y) for i, x in enumerate(ats) for y in ats[i + 1:] if B(x, y) not in g.bonds]
